@@ -64,7 +64,9 @@ def oracle(r, want):
             bad.append("%s:extra=%s:missing=%s" % (name, extra, missing))
     diff("tables", r["tables"], want["tables"])
     diff("columns", r["columns"], want["columns"])
-    diff("functions", r["functions"], want["functions"])
+    # names that MAY be reported as functions (a niladic keyword function is a function call if the parser says so)
+    opt = set(want.get("functions_optional") or [])
+    diff("functions", [f for f in r["functions"] if f not in opt or f in want["functions"]], want["functions"])
     diff("qcolumns", got_qc, [tuple(x) for x in want["qcolumns"]])
     # qualified tables: the written name split at its dots
     def split(n):
@@ -96,6 +98,25 @@ def signature_of(fail, inp):
     return {"kind": "context", "analysis": name, "shape": shape}
 
 
+def probe_niladic(rp):
+    """does the parser build a bare FunctionCall for CURRENT_DATE?  Then the reference grammar's MNiladic
+    (prescribed as exactly that, Model/QRef.ast_niladic) is generated; otherwise it is left to the decoy oracle."""
+    pr = run_harness([{"id": 0, "sql": "SELECT CURRENT_DATE FROM t1"}], rp, "probe")
+    rep = "rejected"
+    if pr and pr[0]["accepted"] and pr[0].get("tree"):
+        def find(n):
+            if n.get("s", {}).get("Name", "").upper() == "CURRENT_DATE":
+                return n
+            for k in n.get("k", []):
+                f = find(k)
+                if f:
+                    return f
+        n = find(pr[0]["tree"][0])
+        rep = (n["t"] + ("" if not n.get("k") else "+children")) if n else "other"
+    rp.cov["niladic_keyword_representation"] = rep
+    return rep == "FunctionCall"
+
+
 def run_harness(inputs, rp, tag):
     inp = "".join(json.dumps(i) + "\n" for i in inputs)
     p = common.vh(["extract"], input=inp, timeout=1500)
@@ -124,7 +145,7 @@ def run(tier):
     known = {json.dumps(k["signature"], sort_keys=True): k for k in common.known_findings("C15") if k.get("status") == "known"}
 
     # ---- inputs ----
-    g = qgen.Gen(rng)
+    g = qgen.Gen(rng, niladic=probe_niladic(rp))
     lays = qgen.layouts(rng)
     ref = []                    # (stmt, layout index, harness input)
     n_ref = 400 if quick else 2500
@@ -149,7 +170,8 @@ def run(tier):
     for sql, kw in KEYWORD_DECOYS:
         decoys.append({"sql": sql, "shape": "niladic_keyword:" + kw,
                        "want": {"tables": ["t1"], "columns": [c for c in ["a", "b"] if (" %s " % c) in sql.replace(",", " ")],
-                                "qcolumns": [["", c] for c in ["a", "b"] if (" %s " % c) in sql.replace(",", " ")], "functions": []}})
+                                "qcolumns": [["", c] for c in ["a", "b"] if (" %s " % c) in sql.replace(",", " ")], "functions": [],
+                                "functions_optional": [kw]}})
     corpus = sqlgen.corpus_statements() + sqlgen.generated_statements(rng, 300 if quick else 4000) + sqlgen.SPECIAL
     inputs = [d for _, _, d in ref] + decoys + [{"sql": s} for s in corpus]
     for i, d in enumerate(inputs):
